@@ -14,17 +14,16 @@ DRIVERS = ["driver_c12"]
 TRUSTED = ["model: coq/Model/Group.v (mk_group: key conversion / uniqueness / sort / union of supports / member restriction; Ts constructor incl. the empty-series rule; "
            "select_keys, masks, getby_*, g_restrict, g_get, merge_group (as repaired) and merge_group_orig, to_tsd, to_tsgroup, rate, step/trace) over Model/Iset.v, Restrict.v, "
            "Slice.v, Count.v, ValueFrom.v; theorems: Proofs/GroupProofs.v (reusing RestrictProofs, UnionProofs, C02Top, C01Top, SliceProofs, CountProofs)",
+           "the model is the library AS REPAIRED by two proposed fixes (_union_intervals: n-ary kernel for two members too; merge_group: shapes of the supports compared "
+           "before np.allclose); the earlier behaviours are kept as union_supports_orig / merge_group_lax with _refuted witnesses",
            "metadata is one integer column 'tag' supplied as a DataFrame indexed by the sorted integer keys (attachment of metadata is C13's)",
            "python's int()/float() on the supplied keys is abstracted as rawkey (int / numeric string / rejected by int() / float with or without a fraction)",
            "np.argsort in to_tsd is modelled as a stable sort; the round trip does not depend on the order of equal timestamps (proved: filter commutes with the sort)"]
 ASSUMPTIONS = ["members are built with >= 2 distinct timestamps or an explicit support (a single-timestamp series has an empty default support: known quirk)",
-               "the rate clause is stated and checked for members whose own support is the group's (always the case unless the caller opts out of the check AND passes members "
-               "that were not restricted beforehand: then rate = len / the member's own support duration, counted in the distribution)",
                "time supports compared by merge_group differ by 0 or by more than 1 ns (np.allclose with atol=1e-9 is float-ambiguous at exactly 1 ns)",
-               "two supports that touch are merged into intervals separated by the constructor's 1 us trim: for TWO members the union is proved/checked at instants farther than 1 us from "
-               "every endpoint (exact for >= 3 members, n-ary kernel)",
-               "observation kept out of the claim: merge_group(reset_time_support=False) accepts an empty support against a one-interval support (np.allclose broadcasts (0,2) with (1,2)); "
-               "modelled as is (sup_same) and counted in the distribution"]
+               "the rate clause is not evaluated when the group's support has zero total duration (len / 0 is not a number the statement fixes)",
+               "keys that have no integer value, or two keys with the same integer value, must be rejected with SOME exception (the statement fixes no exception type)",
+               "off-lattice samples sit 300-500 ns before a touching endpoint, never exactly on a 1 us-trimmed end (the float of `end - 1e-6` may be one ulp off the tick: DESIGN.md section 2)"]
 
 U = 1953125  # 2^-9 s in ticks
 
@@ -46,6 +45,8 @@ TEMPL = [
     ("I", 1, [3, 7, 7], None),             # raw array
     ("J", 0, [0, 5, 9], [(0, 4)]),         # samples outside its own support dropped by Ts()
     ("K", 4, [1, 5, 11], [(0, 12)]),       # a Tsd
+    ("L", 0, [0, 2, (4, -500)], [(0, 4)]),  # a sample 0.5 us before its support's end, which touches C's start
+    ("M", 0, [(4, -300)], [((4, -500), 4)]),  # a 0.5 us support that touches C's start (a 1 us trim would erase it)
 ]
 SUPS = [None, [(0, 12)], [(1, 5)], [(3, 5), (9, 11)], []]
 OPS = {0: ">", 1: "<", 2: ">=", 3: "<="}
@@ -56,12 +57,53 @@ def _nap():
     return nap
 
 
+def tk(v):
+    """template coordinate -> ticks: n (units of U) or (n, offset in ns)"""
+    return v[0] * U + v[1] if isinstance(v, tuple) else v * U
+
+
 def sc(x):
-    return [v * U for v in x]
+    return [tk(v) for v in x]
 
 
 def sci(ep):
-    return [(s * U, e * U) for s, e in ep]
+    return [(tk(s), tk(e)) for s, e in ep]
+
+
+def exact_union(sups):
+    """the union of closed interval sets as a point set, in canonical form (touching and overlapping intervals are one interval)"""
+    ivs = sorted(iv for s in sups for iv in s if iv[0] < iv[1])
+    out = []
+    for a, b in ivs:
+        if out and a <= out[-1][1]:
+            out[-1][1] = max(out[-1][1], b)
+        else:
+            out.append([a, b])
+    return [tuple(iv) for iv in out]
+
+
+def diff_points(A, B):
+    """where two sets of closed intervals differ: the doubled coordinates 2x of every endpoint x and of every midpoint between consecutive endpoints
+    at which membership differs (exhaustive: membership is constant between consecutive endpoints)"""
+    pts = sorted(set(p for S in (A, B) for iv in S for p in iv))
+    cand = [2 * p for p in pts] + [p + q for p, q in zip(pts, pts[1:])]
+    m2 = lambda x2, S: any(2 * a <= x2 <= 2 * b for a, b in S)
+    return sorted(x2 for x2 in cand if m2(x2, A) != m2(x2, B))
+
+
+def touch_points(sups):
+    """instants p that end an interval of one member's support and start an interval of ANOTHER member's support"""
+    out = set()
+    for i, a in enumerate(sups):
+        for j, b in enumerate(sups):
+            if i != j:
+                out.update(e for _, e in a if any(s == e for s, _ in b))
+    return out
+
+
+def only_touching_trim(x2s, touches):
+    """every doubled coordinate lies strictly inside the microsecond that precedes a touching point"""
+    return bool(x2s) and all(any(2 * (p - 1000) < x2 < 2 * p for p in touches) for x2 in x2s)
 
 
 def mk_iset(nap, ep):
@@ -181,21 +223,22 @@ def tot(ep):
 
 
 def invariant_viol(st, within=True):
-    """statement-level invariants of a group state (implementation side); returns a description or None"""
+    """statement-level invariants of a group state (implementation side); returns None or (part, description, extra key fields).
+    within = the group does not descend (through get only) from a construction that opted out of the restriction"""
     k = st["keys"]
     if k != sorted(set(k)) or st["index"] != k:
-        return "keys are not the strictly increasing integers of the index"
+        return ("invariant", "keys are not the strictly increasing integers of the index", {})
     if not G.canonical(st["sup"]):
-        return "time support is not canonical"
+        return ("invariant", "time support is not canonical", {})
     for key, (t, s, r, r2) in zip(k, st["mem"]):
         if t != sorted(t):
-            return "member %d not sorted" % key
+            return ("invariant", "member %d not sorted" % key, {})
         if within and any(not G.mem(x, st["sup"]) for x in t):
-            return "member %d has a sample outside the group's time support" % key
+            return ("invariant", "member %d has a sample outside the group's time support" % key, {})
         if not (math.isnan(r) and math.isnan(r2)) and r != r2:
-            return "rate column differs from the member's rate for key %d" % key
-        if t and s == st["sup"] and tot(st["sup"]) > 0 and not rate_ok(r2, (len(t), tot(st["sup"]))):
-            return "rate[%d] != len / total support duration" % key
+            return ("invariant", "rate column differs from the member's rate for key %d" % key, {})
+        if t and tot(st["sup"]) > 0 and not rate_ok(r2, (len(t), tot(st["sup"]))):
+            return ("rate", "rate[%d] != len / total support duration" % key, {"bypass_check": not within, "member_support_is_group_support": bool(s == st["sup"])})
     return None
 
 
@@ -249,10 +292,6 @@ def construction_specs(tier, rng):
     return specs
 
 
-def expected_union_mem(x, sups):
-    return any(G.mem(x, s) for s in sups)
-
-
 def check_construction(nap, res, spec, model_line, part):
     inp = spec.desc()
     mo = parse_state(model_line)
@@ -278,9 +317,10 @@ def check_construction(nap, res, spec, model_line, part):
         res.disagreements.append({"op": "TsGroup()", "input": inp, "impl": im if im is not None else repr(err), "model": model_line})
     if not valid:
         res.count("rejected_keys")
-        if err is None or not isinstance(err, ValueError):
-            res.violations.append({"key": {"op": "init", "part": "bad_keys"}, "what": "keys that are not distinct integers were not rejected with ValueError", "input": inp,
-                                   "impl": repr(err) if err else im["keys"]})
+        if err is None:
+            res.violations.append({"key": {"op": "init", "part": "bad_keys"}, "what": "keys that are not distinct integer values were accepted", "input": inp, "impl": im["keys"]})
+        else:
+            res.count("rejected_with_" + type(err).__name__)
         return None
     # member objects as supplied (their own timestamps / supports)
     built = [mk_member(nap, k, t, s) for k, t, s in spec.members]
@@ -307,40 +347,47 @@ def check_construction(nap, res, spec, model_line, part):
         res.violations.append({"key": dict(kk, part="keys"), "what": "keys are not the integer values of the supplied keys in increasing order", "input": inp,
                                "impl": im["keys"], "expected": sorted(ik)})
         return g
-    # 2. support
+    # 2. support: the one supplied, else EXACTLY the union (as a point set) of the members' supports
+    touches = set()
+    two = len(spec.members) == 2
     if spec.sup is not None:
+        want = list(spec.sup)
         if im["sup"] != spec.sup:
             res.violations.append({"key": dict(kk, part="support"), "what": "the time support is not the one supplied", "input": inp, "impl": im["sup"], "expected": spec.sup})
     else:
         sups = [msup[i] for i in order]
-        pts = sorted(set(p for s in sups for iv in s for p in iv))
-        probes = set(pts)
-        for p, q in zip(pts, pts[1:]):
-            probes.add((p + q) // 2)
-        for p in pts:
-            probes.update((p - 1001, p + 1001, p - U, p + U))
-        bad = [x for x in sorted(probes) if G.mem(x, im["sup"]) != expected_union_mem(x, sups)
-               and not any(0 < abs(x - p) <= 1000 for p in pts)]
+        want = exact_union(sups)
+        touches = touch_points(sups)
+        if touches:
+            res.count("union_of_touching_supports(n=%s)" % ("2" if two else "3+"))
+        bad = diff_points(im["sup"], want)
         if bad or not G.canonical(im["sup"]):
-            res.violations.append({"key": dict(kk, part="support_union"), "what": "the time support is not the union of the members' supports", "input": inp,
-                                   "impl": im["sup"], "expected": "union of %s (differs at %s)" % (sups, bad[:3])})
-    # 3. members restricted (or untouched when the caller opts out); 4. rate
+            res.violations.append({"key": dict(kk, part="support_union", two_members_touching_supports=bool(two and only_touching_trim(bad, touches))),
+                                   "what": "the time support is not the union of the members' supports", "input": inp,
+                                   "impl": im["sup"], "expected": "%s = union of %s (differs at ns %s)" % (want, sups, [x / 2 for x in bad[:3]])})
+    # 3. members restricted to the support the statement fixes (or untouched when the caller opts out); 4. rate
     for j, i in enumerate(order):
         o = built[i]
         src = [C.to_ns(x) for x in (o if spec.members[i][0] == 1 else o.t)]
         if spec.members[i][0] == 1 and spec.sup is not None:
             src = [x for x in src if G.mem(x, spec.sup)]   # raw arrays become Ts(t, time_support = the supplied support)
-        exp = src if spec.bypass else [x for x in src if G.mem(x, im["sup"])]
+        exp = src if spec.bypass else [x for x in src if G.mem(x, want)]
         got, gs, r, r2 = im["mem"][j]
         if got != exp:
-            res.violations.append({"key": dict(kk, part="members"), "what": "member %d is not the supplied member %s" % (im["keys"][j], "as given" if spec.bypass else "restricted to the group's support"),
+            lost = [x for x in exp if x not in got]
+            res.violations.append({"key": dict(kk, part="members", two_members_touching_supports=bool(two and lost and [x for x in exp if x in got] == got
+                                                                                                     and only_touching_trim([2 * x for x in lost], touches))),
+                                   "what": "member %d is not the supplied member %s" % (im["keys"][j], "as given" if spec.bypass else "restricted to the group's support"),
                                    "input": inp, "impl": got, "expected": exp})
-        if got and (not spec.bypass or gs == im["sup"]):
-            if not rate_ok(r2, (len(got), tot(im["sup"]))) or not rate_ok(r, (len(got), tot(im["sup"]))):
-                res.violations.append({"key": dict(kk, part="rate"), "what": "rate[%d] != len(member) / total support duration" % im["keys"][j], "input": inp,
+        if got and tot(im["sup"]) > 0:
+            if spec.bypass and gs != im["sup"]:
+                res.count("bypass_member_keeps_own_support")
+            if not rate_ok(r2, (len(got), tot(im["sup"]))):
+                res.violations.append({"key": dict(kk, part="rate", member_support_is_group_support=bool(gs == im["sup"])),
+                                       "what": "rate[%d] != len(member) / total support duration" % im["keys"][j], "input": inp,
                                        "impl": r2, "expected": "%d / (%d ns)" % (len(got), tot(im["sup"]))})
-        elif got and spec.bypass:
-            res.count("bypass_member_keeps_own_support(rate relative to it)")
+        elif got:
+            res.count("rate_not_evaluated(zero-duration support)")
         if spec.hastag and im["tags"][j] != spec.tags[i]:
             res.disagreements.append({"op": "TsGroup() tags", "input": inp, "impl": im["tags"], "expected": [spec.tags[q] for q in order]})
     return g
@@ -511,8 +558,11 @@ def apply_op(nap, g, op, aux):
     return a.merge(b, reset_index=bool(op[2]), reset_time_support=bool(op[3]), ignore_metadata=bool(op[4]))
 
 
-def step_oracle(res, op, before, after, aux_st, inp, within):
-    """the statement's preservation clauses, on implementation states only.  after is None when the operation raised."""
+def step_oracle(res, op, before, after, aux_st, inp, within, aux_bypass=False):
+    """the statement's preservation clauses, on implementation states only.  after is None when the operation raised.
+    within = the current group does not descend (through get only) from a construction that opted out of the restriction; every clause is
+    evaluated in both cases, and a member that changes only because such a group is re-restricted to its support is reported under
+    bypass_group_member_outside_support=True"""
     k = op[0]
     kk = {"op": {"keys": "getitem_keys", "mask": "getitem_mask", "thr": "getby_threshold", "cat": "getby_category", "int": "getby_intervals",
                  "restrict": "restrict", "get": "get", "rt": "to_tsd_to_tsgroup", "msplit": "merge_group", "mwith": "merge_group"}[k]}
@@ -523,6 +573,17 @@ def step_oracle(res, op, before, after, aux_st, inp, within):
     bk = before["keys"]
     bmem = dict(zip(bk, before["mem"]))
     btag = dict(zip(bk, before["tags"])) if before["hastag"] else None
+    optout = (not within) or (op[0] == "mwith" and aux_bypass)
+
+    def members_preserved(part_what, keys, mems, source, sup, touches=(), two=False):
+        for key, m in zip(keys, mems):
+            exp = source[key]
+            if m[0] != exp:
+                lost = [x for x in exp if x not in m[0]]
+                kept_rest = [x for x in exp if x in m[0]] == m[0]
+                viol("members", part_what % key, m[0], exp,
+                     bypass_group_member_outside_support=bool(optout and m[0] == [x for x in exp if G.mem(x, sup)]),
+                     two_members_touching_supports=bool(two and lost and kept_rest and only_touching_trim([2 * x for x in lost], touches)))
     if k in ("keys", "mask", "thr", "cat", "int"):
         # which keys does the operation name?
         if k == "keys":
@@ -554,10 +615,7 @@ def step_oracle(res, op, before, after, aux_st, inp, within):
             return
         if after["sup"] != before["sup"]:
             viol("support", "selection changed the time support", after["sup"], before["sup"])
-        for key, m in zip(after["keys"], after["mem"]):
-            exp = [x for x in bmem[key][0] if G.mem(x, after["sup"])]
-            if m[0] != exp:
-                viol("members", "member %d changed under selection" % key, m[0], exp)
+        members_preserved("member %d changed under selection", after["keys"], after["mem"], {x: bmem[x][0] for x in bk}, before["sup"])
         if btag is not None and after["hastag"] and [btag[x] for x in after["keys"]] != after["tags"]:
             viol("tags", "metadata did not follow the selected keys", after["tags"], [btag[x] for x in after["keys"]])
         return
@@ -583,7 +641,7 @@ def step_oracle(res, op, before, after, aux_st, inp, within):
             viol("keys_support", "get changed the keys or the support", (after["keys"], after["sup"]), (bk, before["sup"]))
             return
         for key, m in zip(after["keys"], after["mem"]):
-            exp = [x for x in bmem[key][0] if op[1] <= x <= op[2] and (not bmem[key][1] or G.mem(x, bmem[key][1]))]
+            exp = [x for x in bmem[key][0] if op[1] <= x <= op[2]]
             if m[0] != exp:
                 viol("members", "member %d is not the window of the old member" % key, m[0], exp)
         return
@@ -591,24 +649,22 @@ def step_oracle(res, op, before, after, aux_st, inp, within):
         if after is None:
             viol("exception", "to_tsd / to_tsgroup raised")
             return
-        expk = [x for x in bk if any(G.mem(t, before["sup"]) for t in bmem[x][0])]
+        expk = [x for x in bk if bmem[x][0]]
         if after["keys"] != expk:
-            viol("keys", "round trip does not hold exactly the keys of the members with samples", after["keys"], expk)
+            viol("keys", "round trip does not hold exactly the keys of the members with samples", after["keys"], expk,
+                 bypass_group_member_outside_support=bool(optout and after["keys"] == [x for x in bk if any(G.mem(t, before["sup"]) for t in bmem[x][0])]))
             return
         if expk and after["sup"] != before["sup"]:
             viol("support", "round trip changed the support", after["sup"], before["sup"])
-        for key, m in zip(after["keys"], after["mem"]):
-            exp = [x for x in bmem[key][0] if G.mem(x, before["sup"])]
-            if m[0] != exp:
-                viol("members", "member %d changed in the round trip" % key, m[0], exp)
+        members_preserved("member %d changed in the round trip", after["keys"], after["mem"], {x: bmem[x][0] for x in bk}, before["sup"])
         return
     # merges
     if k == "msplit":
-        if len(op[1]) != len(bk) or len(op[2]) != len(bk) or not within:
+        if len(op[1]) != len(bk) or len(op[2]) != len(bk):
             return
         parts = [{"keys": [x for x, m in zip(bk, mk) if m], "sup": before["sup"], "hastag": before["hastag"]} for mk in (op[1], op[2])]
-        for p in parts:
-            p["mem"] = [(bmem[x][0], bmem[x][1]) for x in p["keys"]]
+        for p in parts:   # a selection preserves the member and hands it the group's support (no support without a sample)
+            p["mem"] = [(bmem[x][0], before["sup"] if bmem[x][0] else []) for x in p["keys"]]
         ri, rs, im = op[3], op[4], op[5]
     else:
         if aux_st is None:
@@ -619,42 +675,63 @@ def step_oracle(res, op, before, after, aux_st, inp, within):
         ri, rs, im = op[2], op[3], op[4]
     legal = (im or parts[0]["hastag"] == parts[1]["hastag"]) and (ri or not set(parts[0]["keys"]) & set(parts[1]["keys"])) \
         and (rs or parts[0]["sup"] == parts[1]["sup"])
-    if not legal:
-        if after is not None and not rs and parts[0]["sup"] != parts[1]["sup"]:
-            res.count("merge_accepted_different_supports(empty vs one interval)")
-        return
     items = [(x, m) for p in parts for x, m in zip(p["keys"], p["mem"])]
     if ri:
         items = [(i, m) for i, (_, m) in enumerate(items)]
-    if rs and not any(m[1] for _, m in items):
-        return  # union of the member supports is empty: RuntimeError is the documented outcome
-    concat_sorted = [x for x, _ in items] == sorted(x for x, _ in items)
     if after is None:
+        if not legal or (rs and not any(m[1] for _, m in items)):
+            return  # a documented ValueError, or RuntimeError: the union of the member supports is empty
+        concat_sorted = [x for x, _ in items] == sorted(x for x, _ in items)
+        # groups that opted out of the restriction: once re-restricted, no member may have a sample left, and the union of the supports is empty
+        emptied = bool(k == "msplit" and optout and rs and not any(G.mem(x, p["sup"]) for p in parts for m in p["mem"] for x in m[0]))
         viol("exception", "merge of groups with disjoint keys and the same time support raised", ignore_metadata=bool(im), concat_keys_sorted=concat_sorted,
-             reset_index=bool(ri), reset_time_support=bool(rs))
+             reset_index=bool(ri), reset_time_support=bool(rs), bypass_group_member_outside_support=emptied)
         return
+    # the merge returned a group: whatever was accepted, the statement's preservation clause applies to it
+    diff_sup = bool(not rs and parts[0]["sup"] != parts[1]["sup"])
+    if diff_sup:
+        res.count("merge_accepted_different_supports(empty vs one interval)")
+    kk = dict(kk, reset_time_support=bool(rs), accepted_different_supports=diff_sup)
     if after["keys"] != sorted(x for x, _ in items):
         viol("keys", "merged group does not hold the union of the keys", after["keys"], sorted(x for x, _ in items))
         return
-    if not rs and after["sup"] != parts[0]["sup"]:
+    if not rs and not diff_sup and after["sup"] != parts[0]["sup"]:
         viol("support", "merge changed the common time support", after["sup"], parts[0]["sup"])
+    touches, two = set(), False
     if rs:
         sups = [m[1] for _, m in sorted(items)]
-        pts = sorted(set(p for s in sups for iv in s for p in iv))
-        probes = set(pts) | set((p + q) // 2 for p, q in zip(pts, pts[1:]))
-        bad = [x for x in probes if G.mem(x, after["sup"]) != any(G.mem(x, s) for s in sups) and not any(0 < abs(x - p) <= 1000 for p in pts)]
+        want = exact_union(sups)
+        touches, two = touch_points(sups), len(items) == 2
+        if touches:
+            res.count("merge_union_of_touching_supports(n=%s)" % ("2" if two else "3+"))
+        bad = diff_points(after["sup"], want)
         if bad:
-            viol("support_union", "merged support is not the union of the members' supports", after["sup"], sups)
-    src = dict(items)
-    for key, m in zip(after["keys"], after["mem"]):
-        exp = [x for x in src[key][0] if G.mem(x, after["sup"])]
-        if m[0] != exp:
-            viol("members", "member %d changed in the merge" % key, m[0], exp)
+            viol("support_union", "merged support is not the union of the members' supports", after["sup"], "%s = union of %s" % (want, sups),
+                 two_members_touching_supports=bool(two and only_touching_trim(bad, touches)))
+    members_preserved("member %d changed in the merge", after["keys"], after["mem"], {x: m[0] for x, m in items}, after["sup"], touches, two)
+
+
+def directed_merge_cases():
+    """two one-member groups whose supports touch (or are an empty support against one interval), merged both ways"""
+    out = []
+    byname = {n: (k, sc(t), None if s is None else sci(s)) for n, k, t, s in TEMPL}
+    for a, b in (("A", "C"), ("L", "C"), ("M", "C"), ("C", "L"), ("G", "B")):
+        for first in (0, 1):
+            for ri in (0, 1):
+                base = Spec([KEYS[2]], [1], [byname[a]], byname[a][2], False)
+                aux = Spec([KEYS2[0]], [2], [byname[b]], byname[b][2], False)
+                out.append((base, aux, [("mwith", first, ri, 1, first ^ ri)]))
+    for a, sa, sb in (("A", [], [(0, 12)]), ("A", [(0, 12)], []), ("B", [], [(1, 5)])):
+        for first in (0, 1):
+            base = Spec([KEYS[2]], [1], [byname[a]], sci(sa), False)
+            aux = Spec([KEYS2[0]], [2], [byname["D"]], sci(sb), False)
+            out.append((base, aux, [("mwith", first, 0, 0, first)]))
+    return out
 
 
 def history_cases(tier, seed):
     rng = random.Random(seed * 7 + 12)
-    out = []
+    out = directed_merge_cases()
     for c in range(700 if tier == "quick" else 7000):
         sup = rng.choice([[(0, 12)], [(0, 12)], [(0, 12)], [(1, 5)], [(3, 5), (9, 11)], None, [(0, 4), (6, 12)]])
         base = rand_spec(rng, KEYS, None if sup is None else sci(sup))
@@ -696,9 +773,9 @@ def run_history(nap, res, base, aux, ops, line):
         res.case(("hist", str(inp)), nontrivial=False)
         return
     st = impl_state(g)
-    if not states_agree(st, parse_state(steps[0])):
+    model_ok = states_agree(st, parse_state(steps[0]))
+    if not model_ok:   # the statement's clauses are still evaluated on the implementation's states below
         res.disagreements.append({"op": "history/base", "input": inp, "impl": st, "model": steps[0]})
-        return
     within = not base.bypass
     nerr = 0
     for i, op in enumerate(ops):
@@ -716,19 +793,20 @@ def run_history(nap, res, base, aux, ops, line):
             res.count("op_raised")
             res.count("raised_" + op[0])
             nerr += 1
-        step_oracle(res, op, st, st2, aux_st, dict(inp, step=i), within)
-        if not states_agree(st2, mo):
+        step_oracle(res, op, st, st2, aux_st, dict(inp, step=i), within, aux.bypass)
+        if model_ok and not states_agree(st2, mo):
             res.disagreements.append({"op": "history/" + op[0], "input": dict(inp, step=i), "impl": st2 if st2 is not None else repr(ex), "model": steps[i + 1] if i + 1 < len(steps) else None})
-            break
+            model_ok = False
         if st2 is not None:
             if op[0] != "get":
                 within = True
             iv = invariant_viol(st2, within)
             if iv:
-                res.violations.append({"key": {"op": op[0], "part": "invariant"}, "what": iv, "input": dict(inp, step=i), "impl": st2})
+                res.violations.append({"key": dict({"op": op[0], "part": iv[0]}, **iv[2]), "what": iv[1], "input": dict(inp, step=i), "impl": st2})
             g, st = g2, st2
     res.case(("hist", str(inp)), nontrivial=len(ops) - nerr >= 2)
-    res.traces += 1
+    if model_ok:
+        res.traces += 1
 
 
 # --------------------------------------------------------------------------------------
@@ -829,6 +907,12 @@ def _group_level_case(nap, res, out, n, sp, ep, b, src, mode):
         # value_from
         tsd = nap.Tsd(G.arr(src), np.arange(len(src)) + 100.0, time_support=mk_iset(nap, [(-U, 14 * U)]))
         ms = ["before", "closest", "after"][mode]
+        V0 = g.value_from(tsd, mode=ms)   # ep omitted: the group's own support, as for each member
+        for k in keys:
+            per = g[k].value_from(tsd, mode=ms)
+            if not (k in V0 and np.array_equal(per.t, V0[k].t) and nan_eq(per.values, V0[k].values)):
+                res.violations.append({"key": {"op": "value_from", "mode": ms, "part": "default_ep"}, "what": "group value_from(ep omitted)[%d] differs from the member's" % k, "input": inp,
+                                       "expected": np.asarray(per.values).tolist()})
         V = g.value_from(tsd, epo, mode=ms)
         if [int(k) for k in V.keys()] != keys or ticks_iset(V.time_support) != ep:
             res.violations.append({"key": {"op": "value_from", "part": "keys_support"}, "what": "group value_from changed the keys or did not install ep", "input": inp})
@@ -888,28 +972,42 @@ def merge_nary(nap, res, tier, seed):
             st, ex = None, e
         if not states_agree(st, parse_state(line)):
             res.disagreements.append({"op": "merge_group(n-ary)", "input": inp, "impl": st if st is not None else repr(ex), "model": line})
-            continue
-        legal = (im or all(s_["hastag"] == sts[0]["hastag"] for s_ in sts)) and (rs or all(s_["sup"] == sts[0]["sup"] for s_ in sts)) \
+        same_sup = all(s_["sup"] == sts[0]["sup"] for s_ in sts)
+        legal = (im or all(s_["hastag"] == sts[0]["hastag"] for s_ in sts)) and (rs or same_sup) \
             and (ri or sum(len(s_["keys"]) for s_ in sts) == len(set(k for s_ in sts for k in s_["keys"])))
-        if not legal:
-            continue
         items = [(k, m) for s_ in sts for k, m in zip(s_["keys"], s_["mem"])]
         if ri:
             items = [(i, m) for i, (_, m) in enumerate(items)]
-        if rs and not any(m[1] for _, m in items):
-            continue
         kk = {"op": "merge_group", "ignore_metadata": bool(im), "concat_keys_sorted": [k for k, _ in items] == sorted(k for k, _ in items),
-              "reset_index": bool(ri), "reset_time_support": bool(rs)}
+              "reset_index": bool(ri), "reset_time_support": bool(rs), "accepted_different_supports": bool(not rs and not same_sup)}
         if st is None:
-            res.violations.append({"key": dict(kk, part="exception"), "what": "merge of groups with disjoint keys and the same time support raised", "input": inp, "impl": repr(ex)})
+            if legal and not (rs and not any(m[1] for _, m in items)):
+                res.violations.append({"key": dict(kk, part="exception"), "what": "merge of groups with disjoint keys and the same time support raised", "input": inp, "impl": repr(ex)})
             continue
+        # the merge returned a group: whatever was accepted, the statement's preservation clause applies to it
+        if not rs and not same_sup:
+            res.count("merge_accepted_different_supports(empty vs one interval)")
         src = dict(items)
-        if st["keys"] != sorted(src) or (not rs and st["sup"] != sts[0]["sup"]) or \
-                any(m[0] != [x for x in src[k][0] if G.mem(x, st["sup"])] for k, m in zip(st["keys"], st["mem"])):
-            res.violations.append({"key": dict(kk, part="members"), "what": "merged group does not hold every member's timestamps under its key", "input": inp, "impl": st})
+        if st["keys"] != sorted(k for k, _ in items):
+            res.violations.append({"key": dict(kk, part="keys"), "what": "merged group does not hold the union of the keys", "input": inp, "impl": st["keys"]})
+            continue
+        if not rs and same_sup and st["sup"] != sts[0]["sup"]:
+            res.violations.append({"key": dict(kk, part="support"), "what": "merge changed the common time support", "input": inp, "impl": st["sup"]})
+        if rs:
+            sups = [m[1] for _, m in sorted(items)]
+            want = exact_union(sups)
+            if touch_points(sups):
+                res.count("merge_union_of_touching_supports(n=3+)")
+            if diff_points(st["sup"], want):
+                res.violations.append({"key": dict(kk, part="support_union", two_members_touching_supports=False), "what": "merged support is not the union of the members' supports",
+                                       "input": inp, "impl": st["sup"], "expected": "%s = union of %s" % (want, sups)})
+        for k, m in zip(st["keys"], st["mem"]):
+            if m[0] != src[k][0]:
+                res.violations.append({"key": dict(kk, part="members", bypass_group_member_outside_support=False, two_members_touching_supports=False),
+                                       "what": "member %d changed in the merge" % k, "input": inp, "impl": m[0], "expected": src[k][0]})
         iv = invariant_viol(st)
         if iv:
-            res.violations.append({"key": dict(kk, part="invariant"), "what": iv, "input": inp, "impl": st})
+            res.violations.append({"key": dict(kk, part=iv[0], **iv[2]), "what": iv[1], "input": inp, "impl": st})
 
 
 # --------------------------------------------------------------------------------------
@@ -918,12 +1016,18 @@ def run(res, tier, seed):
     warnings.simplefilter("ignore")
     rng = random.Random(seed * 3 + 12)
     res.rule = ("TsGroup(): (a) EVERY ordered tuple of 1..4 keys from {'7', 2.0, 5, 0, -3} (dict input) x support {none, explicit} x bypass_check [complete]; "
-                "(b) EVERY tuple of <= %s member templates out of 11 (supports disjoint / overlapping / touching / identical / two-interval / default / empty member / raw array / Tsd) "
+                "(b) EVERY tuple of <= %s member templates out of 13 (supports disjoint / overlapping / touching / identical / two-interval / default / empty member / raw array / Tsd / "
+                "a sample 0.5 us before a touching end / a 0.5 us support touching the next one) "
                 "x 5 support choices (none, covering, cutting, two-interval, empty) x bypass_check, dict and list input [complete for the stated sizes, sampled above]; "
                 "(c) rejected keys (non-numeric, fractional, equal integer value). Histories: random sequences of <= 6 operations out of key-list / mask / getby_threshold / "
                 "getby_category / getby_intervals / restrict / get / to_tsd->to_tsgroup / merge of two selections / merge with a second group (all flag combinations), "
-                "model and implementation compared after EVERY step, the statement's preservation clauses and invariants evaluated on the implementation's states. "
-                "Group-level count / value_from / trial_count against the members' own. non-trivial = keys arrive unsorted (a), >= 2 members (b), >= 2 successful steps (histories)"
+                "preceded by 26 directed merges of two one-member groups (touching supports with reset_time_support, empty support against one interval), "
+                "model and implementation compared after EVERY step, the statement's preservation clauses and invariants evaluated on the implementation's states "
+                "(also after a model disagreement, also for groups built with bypass_check=True, also for merges the library accepts although documented to raise). "
+                "Oracle: the support must equal the union of the members' supports AS A POINT SET (no tolerance), members are compared with the supplied members restricted to "
+                "the support the statement fixes (not to the implementation's own), rate is checked for every member with a sample whatever bypass_check. "
+                "n-ary merges (3-4 groups): keys, exact union when the support is reset, every member unchanged. "
+                "Group-level count / value_from (with and without ep) / trial_count against the members' own. non-trivial = keys arrive unsorted (a), >= 2 members (b), >= 2 successful steps (histories)"
                 % ("2 (+ samples of 3 and 4)" if tier == "quick" else "3 (+ samples of 4)"))
     res.exhaustive = True
     specs = construction_specs(tier, rng)
